@@ -43,6 +43,7 @@ def strategies():
 class RecordingRandom(random.Random):
     log = []
     source = random.Random(0)
+    tagger = None        # optional callable naming who shuffles (C14: the build)
 
     def __init__(self, seed=None):
         super().__init__(RecordingRandom.source.getrandbits(64) if seed is None else seed)
@@ -50,7 +51,7 @@ class RecordingRandom(random.Random):
     def shuffle(self, x):
         before = [e.txo.id for e in x]
         super().shuffle(x)
-        RecordingRandom.log.append((before, [e.txo.id for e in x]))
+        RecordingRandom.log.append((before, [e.txo.id for e in x], RecordingRandom.tagger() if RecordingRandom.tagger else None))
 
 
 coinselection.Random = RecordingRandom
@@ -252,12 +253,14 @@ async def run_create(world, case, made=None):
     except Exception as e:  # noqa
         exc = type(e).__name__ + ':' + str(e)[:80]
     res_after = await world.reserved_txoids()
-    shuffles = [[[rid_of[i] for i in a], [rid_of[i] for i in b]] for a, b in RecordingRandom.log]
+    shuffles = [[[rid_of[i] for i in a], [rid_of[i] for i in b]] for a, b, _ in RecordingRandom.log]
     obs = {'rows_before': rows_before, 'rid_of': rid_of, 'est_order': est_order, 'pre_desc': pre_desc, 'outs': outs,
            'outs_before': outs_before, 'tx': tx, 'exc': exc, 'res_before': res_before, 'res_after': res_after,
            'shuffles': shuffles, 'funding': funding, 'change_acc': change_acc, 'pre': pre}
+    known = {r['rid'] for r in spendable_rows(rows_before)}
     impl = {'result': 'ok' if tx is not None else exc,
-            'reserved': sorted(rid_of[t] for t in res_after)}
+            'reserved': sorted(rid_of[t] for t in res_after if rid_of[t] in known)}
+    obs['reserved_all'] = sorted(rid_of[t] for t in res_after)
     if tx is not None:
         n_pre = len(pre)
         added = []
@@ -341,10 +344,11 @@ def monitor(world, case, impl, obs):
     rid_of = obs['rid_of']
     pre_ids = [d[0] for d in obs['pre_desc']]
     res_before = sorted(rid_of[t] for t in obs['res_before'])
-    res_after = impl['reserved']
+    res_after = obs['reserved_all']
     fresh_in = Input.spend(Transaction().add_outputs([Output.pay_pubkey_hash(1, b'\x01' * 20)]).outputs[0]).size
     fee46 = Output.pay_pubkey_hash(COIN, NULL_HASH32).size * fpb
-    free = [r for r in spendable_rows(rows) if not r['is_reserved']]
+    # what the balancing loop may pick from: unreserved rows that are not pre-chosen inputs (those are reserved first)
+    free = [r for r in spendable_rows(rows) if not r['is_reserved'] and r['rid'] not in pre_ids]
     if case['strategy'] == 'sqlite':
         free = [r for r in free if r['txo_type'] == 0]
     all_positive = all(r['amount'] - fresh_in * fpb > 0 for r in free)
@@ -400,9 +404,13 @@ def monitor(world, case, impl, obs):
             return 'added input %s is not a plain spendable output (type %s)' % (a, r['txo_type'])
         if a in pre_ids:
             return 'added input %s was already a pre-chosen input' % a
-    expect = sorted(set(res_before) | set(added))
+    # the pre-chosen inputs that are rows of this wallet are reserved as well (repaired behaviour)
+    expect = sorted(set(res_before) | set(added) | (set(pre_ids) & set(rid_of.values())))
     if res_after != expect:
         return 'after success reserved=%s, expected %s' % (res_after, expect)
+    all_inputs = [t.txo_ref.id for t in tx.inputs]
+    if len(set(all_inputs)) != len(all_inputs):
+        return 'the transaction spends an outpoint twice: %s' % all_inputs
     extra = list(tx.outputs)[n_req:]
     if len(extra) > 1:
         return 'more than one change output'
@@ -524,9 +532,16 @@ def gen_case(rng, strategy, tier):
     elif c < 0.3:
         for _ in range(rng.randrange(2, 4)):
             case['pre'].append({'kind': 'external', 'amount': gen_amount(rng, fpb)})
+    elif c < 0.42 and mine:
+        # plain wallet outputs handed in without reserving them first (daemon txo_spend does that)
+        cand = [list(r) for r in mine if list(r) not in case['reserved']]
+        for r in rng.sample(cand, min(len(cand), rng.choice([1, 1, 2, 3]))):
+            case['pre'].append({'kind': 'wallet', 'ref': r})
     # requested outputs
     kinds = rng.choice([['pay'], ['pay'], ['pay'], ['pay', 'pay'], ['claim'], ['support'], ['purchase'], ['update'],
                         ['script_hash'], ['pay', 'claim', 'pay'], [], []])
+    if case['pre'] and case['pre'][0]['kind'] == 'wallet' and rng.random() < 0.5:
+        kinds = []
     if not kinds and not case['pre'] and rng.random() < 0.7:
         case['pre'].append({'kind': 'external', 'amount': gen_amount(rng, fpb)})
     for k in kinds:
@@ -537,8 +552,9 @@ def gen_case(rng, strategy, tier):
             d['payload'] = rng.choice([0, 10, 200, 300, 4000])
         case['outs'].append(d)
     # choose the amounts so that the deficit lands on an interesting value
+    chosen = [p['ref'] for p in case['pre'] if p['kind'] == 'wallet']
     free = [txs[ti]['outs'][k]['amount'] - 148 * fpb for (ti, k) in mine
-            if [ti, k] not in case['reserved'] and not txs[ti]['outs'][k].get('kind')]
+            if [ti, k] not in case['reserved'] and [ti, k] not in chosen and not txs[ti]['outs'][k].get('kind')]
     total = sum(free)
     pre_eff = 0
     for p in case['pre']:
@@ -552,7 +568,12 @@ def gen_case(rng, strategy, tier):
             n_out += n
         fixed = (8 + cs_len(len(case['pre'])) + cs_len(n_out)) * fpb + fees - pre_eff
         c = rng.random()
-        if free and c < 0.35:
+        if free and strategy == 'sqlite' and c < 0.25:
+            # the sqlite chooser accumulates in ascending amount order: land exactly on (or next to) a prefix sum
+            asc = sorted(free)
+            k = rng.randrange(1, len(asc) + 1)
+            want = sum(asc[:k]) - 46 * fpb + rng.choice([0, 0, 0, 1, -1])
+        elif free and c < 0.35:
             sub = rng.sample(free, rng.randrange(1, len(free) + 1))
             want = sum(sub) - rng.choice([0, 0, 1, 46 * fpb, 46 * fpb + 1, 46 * fpb - 1, 56 * fpb, 56 * fpb + DUST,
                                            56 * fpb + DUST + 1, 102 * fpb + DUST, 102 * fpb + DUST + 1, rng.randrange(0, 5000)])
@@ -690,7 +711,8 @@ async def check_create(run, world, model, case, kind):
         return
     bad = monitor(world, case, impl, obs)
     if bad:
-        run.violation(case, bad, signature={'case': vlib.canon(case)})
+        sig = {'case': vlib.canon(case)}
+        run.violation(case, bad, signature=sig)
         return
     i, m = canon_pair(case, impl, mod)
     run.compare('C03.create', case, i, m)
@@ -765,8 +787,8 @@ async def amain(run, only=None):
                 check_select(run, model, case, 'corpus')
             else:
                 await check_create(run, world, model, case, 'corpus')
-        n_create = vlib.scaled(run.tier, 420, 9000)
-        n_select = vlib.scaled(run.tier, 260, 6000)
+        n_create = vlib.scaled(run.tier, 190, 4000)
+        n_select = vlib.scaled(run.tier, 120, 1500)
         strats = strategies()
         for k in range(n_create):
             for s in strats:
